@@ -132,7 +132,9 @@ pub fn gen_c01(rng: &mut Rng, _k: usize, _tier: &str) -> J {
         else if joined { aggs = aggs.iter().map(|a| a.replace("income", "users.income").replace("(age", "(users.age").replace("city", "users.city")).collect();
                          (match rng.below(2) { 0 => vec![], _ => vec!["users.city"] }, "users JOIN orders ON users.id = orders.user_id".into()) }
         else { (match rng.below(2) { 0 => vec![], _ => vec!["city"] }, "users".into()) };
-    let where_ = if rng.chance(1, 4) { if from_orders { " WHERE qty > 2" } else if joined { " WHERE users.age > 30" } else { " WHERE age > 30" } } else { "" };
+    // one query in twelve has a WHERE clause that no row of the data satisfies (ages and quantities stay below the declared upper bound)
+    let where_ = if rng.chance(1, 12) { if from_orders { " WHERE qty >= 100" } else if joined { " WHERE users.age >= 100" } else { " WHERE age >= 100" } }
+                 else if rng.chance(1, 4) { if from_orders { " WHERE qty > 2" } else if joined { " WHERE users.age > 30" } else { " WHERE age > 30" } } else { "" };
     let mut items: Vec<String> = keys.iter().enumerate().map(|(i, c)| format!("{c} AS k{i}")).collect(); items.extend(aggs);
     let mut sql = format!("SELECT {} FROM {from}{where_}{}", items.join(", "), if keys.is_empty() { String::new() } else { format!(" GROUP BY {}", keys.join(", ")) });
     // joins of two protected relations on a condition that can match rows of different units
@@ -171,6 +173,29 @@ fn noise_maps(rel: &Relation, out: &mut Vec<(Relation, Vec<(String, f64, Option<
     for i in rel.inputs() { noise_maps(i, out, seen); }
 }
 
+/// every cell of a column the rewriting noises with σ > 0 is really drawn: executed with two different settings of the random source
+/// (Box–Muller draws of about +1.7 and −1.1 standard deviations) the two releases of a cell differ — also for a group without rows and
+/// for an aggregate whose WHERE clause keeps nothing, where a NULL-propagating noise expression would release a constant
+pub fn check_noise_applied(out: &mut Outcome, sql: &str, rel: &Relation, data: &crate::data::Data) {
+    let mut maps = vec![]; noise_maps(rel, &mut maps, &mut vec![]);
+    let (da, db) = (data.load(RandomMode::Const(0.1)), data.load(RandomMode::Const(0.4)));
+    for (m, cols) in &maps {
+        let (ra, rb) = match (da.run(m), db.run(m)) { (Ok(a), Ok(b)) => (a, b), _ => return };
+        let names = &ra.0;
+        let noised: Vec<(usize, f64)> = names.iter().enumerate().filter_map(|(i, n)| cols.iter().find(|(c, s, _)| c == n && *s > 0.5).map(|(_, s, _)| (i, *s))).collect();
+        let keyidx: Vec<usize> = (0..names.len()).filter(|i| !cols.iter().any(|(c, _, _)| *c == names[*i])).collect();
+        let keyof = |r: &Vec<Cell>| keyidx.iter().map(|i| r[*i].key()).collect::<Vec<_>>().join("|");
+        let mb: BTreeMap<String, Vec<Cell>> = rb.1.iter().map(|r| (keyof(r), r.clone())).collect();
+        if ra.1.is_empty() { continue; }
+        out.tag("noise-application-checked");
+        for r in &ra.1 { if let Some(r2) = mb.get(&keyof(r)) { for (ci, sigma) in &noised {
+            if r[*ci].key() == r2[*ci].key() {
+                out.fail("C02/exec/cell-released-without-noise", format!("{sql}: the column `{}` is noised with σ = {sigma}, but for the group [{}] two executions with different random draws release the same value {}: the released cell does not depend on the noise", names[*ci], keyof(r), r[*ci]));
+                return;
+            } } } }
+    }
+}
+
 pub fn eval_c01(case: &J) -> Outcome {
     let mut out = Outcome::new();
     let sql = case["sql"].as_str().unwrap();
@@ -193,6 +218,7 @@ pub fn eval_c01(case: &J) -> Outcome {
             vec![a, b] }).collect();
         data.users.extend(extra);
     }
+    check_noise_applied(&mut out, sql, dp.relation(), &data);
     let mut clipped_active = false;
     for rm in case["remove"].as_array().unwrap() {
         let uid = (rm.as_u64().unwrap() % n_users.max(1)) as i64;
@@ -515,6 +541,7 @@ pub fn eval_c04(case: &J) -> Outcome {
         let want: Vec<String> = if sql.contains("IN ('A', 'B')") { vec!["'A'".into(), "'B'".into()] } else { vec!["'A'".into(), "'B'".into(), "'C'".into()] };
         let present: std::collections::BTreeSet<String> = data.users.iter().map(|u| u[2].key()).collect();
         if present.len() < 3 { out.tag("some-public-value-absent-from-data"); }
+        check_noise_applied(&mut out, sql, dp.relation(), &data);
         if got != want { out.fail("C02/exec/public-keys-depend-on-data", format!("{sql}: the grouping column lists the public values {:?}, the data holds {:?}, the DP result releases {:?}: which keys are released depends on the protected rows without any noise", want, present, got)); }
         return out;
     }
